@@ -296,8 +296,9 @@ class ConvolvedFluxes(object):
         # Set wavelength
         c.central_wavelength = self.central_wavelength
 
-        # Save requested apertures
-        c.apertures = apertures[:]
+        # Save requested apertures (a copy, so that resetting the ones beyond
+        # the table below does not change the array of the caller)
+        c.apertures = apertures.copy()
 
         # Transfer model names
         c.model_names = self.model_names
@@ -307,7 +308,7 @@ class ConvolvedFluxes(object):
 
             # If any apertures are larger than the defined max, reset to max
             if np.any(c.apertures > self.apertures.max()):
-                apertures[c.apertures > self.apertures.max()] = self.apertures.max()
+                c.apertures[c.apertures > self.apertures.max()] = self.apertures.max()
 
             # If any apertures are smaller than the defined min, raise error
             # (an aperture that equals the smallest one up to rounding, e.g.
